@@ -139,7 +139,7 @@ pub fn dump_main(tier: Tier, seed: u64, index: usize) {
 }
 
 fn alt_exe(name: &str) -> String {
-    let base = std::env::var("BPAFMC_ALT_DIR").unwrap_or_else(|_| "/verif/target".to_string());
+    let base = format!("{}/target", root());
     format!("{}/alt-{}/release/bpafmc", base, name)
 }
 
